@@ -108,6 +108,20 @@ impl serde::ser::Serializer for ValueSerializer {
         self.serialize_i64(v)
     }
 
+    fn serialize_i128(self, v: i128) -> Result<Self::Ok, Self::Error> {
+        let v: i64 = v
+            .try_into()
+            .map_err(|_err| Error::OutOfRange(Some("i128")))?;
+        self.serialize_i64(v)
+    }
+
+    fn serialize_u128(self, v: u128) -> Result<Self::Ok, Self::Error> {
+        let v: i64 = v
+            .try_into()
+            .map_err(|_err| Error::OutOfRange(Some("u128")))?;
+        self.serialize_i64(v)
+    }
+
     fn serialize_f32(self, v: f32) -> Result<Self::Ok, Self::Error> {
         self.serialize_f64(v as f64)
     }
